@@ -28,6 +28,13 @@ def gen_cases(tier, seed):
         if rng.integers(0, 4) == 0:
             k = int(rng.integers(1, 4))
             cfg["flags"] = [str(f) for f in rng.choice(VERBOSE_FLAGS, k, replace=False)]
+        if i % 6 == 5:
+            # every reporting option on its own, on networks and systems where whole report sections are empty (single operator, no SRAM use, no DMA)
+            fam = "tiny"
+            cfg["flags"] = [VERBOSE_FLAGS[(i // 6) % len(VERBOSE_FLAGS)]]
+            cfg["acc"] = ["ethos-u65-256", "ethos-u55-128", "ethos-u65-512", "ethos-u55-32"][(i // 6) % 4]
+            cfg["mode"] = None if (i // 6) % 3 else cfg.get("mode")
+            cfg["cache"] = [None, 0, 1024][(i // 12) % 3]
         cases.append({"family": fam, "nseed": int(seed * 1000003 + i), "cfg": cfg, "cli": bool(i % 3 == 0) if tier == "quick" else bool(i % 8 == 0)})
     return cases
 
